@@ -200,16 +200,18 @@ TYield ==
                /\ viol' = viol
                     \cup Flag(s \notin watched /\ (0 - s) \notin watched, "yield_of_unwatched_signal")
                     \cup Flag(yielded[s] + 1 > begun[s], "more_yields_than_deliveries")
-          ELSE /\ gotIds' = gotIds \cup {<<s, R.id>>}
+          ELSE /\ gotIds' = gotIds \cup {<<s, R.id, R.t>>}
                /\ queue' = [queue EXCEPT ![s] = SelectSeq(@, LAMBDA x : x # R.id)]
                /\ viol' = viol
                     \cup Flag(s \notin watched /\ (0 - s) \notin watched, "yield_of_unwatched_signal")
                     \cup Flag(yielded[s] + 1 > begun[s], "more_yields_than_deliveries")
                     \cup Flag(<<s, R.id>> \notin delivered, "record_of_no_delivery")
-                    \cup Flag(<<s, R.id>> \in gotIds, "record_yielded_twice")
+                    \cup Flag(\E g \in gotIds : g[1] = s /\ g[2] = R.id, "record_yielded_twice")
                     \cup Flag(R.id < 0, "record_not_a_faithful_copy")
-                    \cup Flag(\E g \in gotIds : g[1] = s /\ g \in DOMAIN preds
-                                   /\ <<s, R.id>> \in preds[g], "records_out_of_order")
+                    \* order is what one scanner sees: two batches scanned on two threads at once each
+                    \* take records in order, the interleaving of their reports means nothing
+                    \cup Flag(\E g \in gotIds : g[1] = s /\ g[3] = R.t /\ <<g[1], g[2]>> \in DOMAIN preds
+                                   /\ <<s, R.id>> \in preds[<<g[1], g[2]>>], "records_out_of_order")
     /\ Keep(<<watched, flag, begun, delivered, bytes, closed, call, consulted, lastAns, lastPoll,
               frames, poisoned>>)
 
